@@ -6,6 +6,7 @@ package sourceaddrs
 import (
 	"fmt"
 	"net/url"
+	"strings"
 )
 
 type RemotePackage struct {
@@ -66,23 +67,21 @@ func (p RemotePackage) subPathString(subPath string) string {
 	}
 
 	// The weird syntax we've inherited from go-getter expects the URL's
-	// query string to appear after the subpath portion, so we need to
-	// now tweak the package URL to be a sub-path URL instead.
-	subURL := p.url // shallow copy
-	subURL.Path += "//" + subPath
-	if subURL.RawPath != "" {
-		// Keep the package part spelled (escaped) exactly as it is when
-		// printed on its own, or the result would parse back to a different
-		// package address.
-		subURL.RawPath += "//" + (&url.URL{Path: subPath}).EscapedPath()
+	// query string to appear after the subpath portion. The sub-path is not
+	// part of the URL: the parser takes it from the address as it is
+	// written, before the rest is parsed as a URL, so it is written here as
+	// it is too, in front of the package address's query string if there
+	// is one. Adding it to the URL's path instead would escape it (a
+	// percent sign, a space) into something that parses back to a
+	// different sub-path, and would lose it for a URL without a path.
+	pkgStr := p.String()
+	query := ""
+	if idx := strings.Index(pkgStr, "?"); idx > -1 {
+		pkgStr, query = pkgStr[:idx], pkgStr[idx:]
 	}
-	if subURL.Scheme == p.sourceType {
-		return subURL.String()
-	}
-	return p.sourceType + "::" + subURL.String()
+	return pkgStr + "//" + subPath + query
 }
 
-// SourceType returns the source type component of the package address.
 func (p RemotePackage) SourceType() string {
 	return p.sourceType
 }
